@@ -3,6 +3,7 @@ from sa import tables
 from sa.report import RuleResult
 from rules import common_block as cb
 from rules import reader_rules as rr
+from rules import regex_rules
 from rules import C11
 
 
@@ -17,7 +18,7 @@ def run(m, tier):
         for f in r.findings:
             f.rule = r.rule
     results = [rr.rule_queue(m, "C12.R1"), r_items, r_nodes, rr.rule_linecount(m, "C12.R2"), rr.rule_span(m, "C12.R3"),
-               rr.rule_quote_state(m, "C12.R4"), rr.rule_semicolon(m, "C12.R5"), rr.rule_continuation(m, "C12.R6")]
+               rr.rule_quote_state(m, "C12.R4"), rr.rule_semicolon(m, "C12.R5"), rr.rule_continuation(m, "C12.R6"), regex_rules.label_name_rules(m, "C12.R7")]
     expl = ("Decides structural clauses of C12: the item queue discipline (who pushes/pops which end, ';' parts reversed before being "
             "pushed to the front, give-back forwarded to the active include reader, no access to another reader's queue); every "
             "look-ahead is undone (typestate of items and nodes on all paths of every reader-level matcher); the physical line counter "
